@@ -207,10 +207,10 @@ def boxOracle (mn mx O D : V3 Rat) (max : Option Rat) (solid : Bool) (out : Out)
       boxNormal mn mx O D t tph (if f0 > tp then some false else if f0 < -tp then some true else none) nf
 
 def paabb : P (Aabb Float) := do let a ← pv3; let b ← pv3; pure ⟨a, b⟩
-def fhit2 (x : Option (Option (Hit3 Float))) : String := match x with | none => "panic" | some h => fhit h
+def fhit2 (x : Option (Hit3 Float)) : String := fhit x
 def fclipEnd (e : ClipEnd Float) : String := s!"{ff e.t} {fv3 e.n} {e.side}"
 def fclip (x : ClipRes Float) : String :=
-  match x with | .panic => "panic" | .none => "none" | .some n f => s!"some {fclipEnd n} {fclipEnd f}"
+  match x with | .none => "none" | .some n f => s!"some {fclipEnd n} {fclipEnd f}"
 
 def clipOracle (mn mx O D : V3 Rat) (o : List String) : String :=
   if D.normSq = 0 then "skip zero-dir" else
@@ -220,7 +220,8 @@ def clipOracle (mn mx O D : V3 Rat) (o : List String) : String :=
   let f := fun (s : Rat) => boxDepth mn mx (O.add (D.smul s))
   match o with
   | "panic" :: _ => "fail panic"
-  | ["none"] => if meets (boxInterval mn mx O D tp) none false then "fail none-but-ray-enters-box" else "pass"
+  -- `None` now means the whole *line* misses the box (a box behind the origin is still clipped)
+  | ["none"] => if (boxInterval mn mx O D tp).isSome then "fail none-but-line-enters-box" else "pass"
   | ["some", t1, _, _, _, _, t2, _, _, _, _] =>
     match run pfo [t1], run pfo [t2] with
     | some a, some b =>
